@@ -1,4 +1,9 @@
 -- Root of the `SafeHtml` library: imports everything that must build.
+import SafeHtml.Props.C04
+import SafeHtml.Props.C05
+import SafeHtml.Props.C06
+import SafeHtml.Props.C07
+import SafeHtml.Props.C08
 import SafeHtml.Props.C10
 import SafeHtml.Props.C11
 import SafeHtml.Props.C12
